@@ -292,7 +292,8 @@ def build_ref(r, layout=0, secret=False):
             out += wire.build_packet(13, data, fmt) + trust
         else:
             img = bytes(_image(n))
-            data = wire.sub_len_encode(len(img) + 17) + b'\x01' + b'\x10\x00\x01\x01' + bytes(12) + img
+            # layout bit 8: the image subpacket length in the five-octet form (legal, RFC 4880 5.12), reserved header octets not all zero
+            data = wire.sub_len_encode(len(img) + 17, 5 if layout & 8 else None) + b'\x01' + b'\x10\x00\x01\x01' + (bytes(12) if not layout & 8 else bytes(11) + b'\x07') + img
             comp = ('ua', data)
             m.uas.append(data)
             out += wire.build_packet(17, data, 'new') + trust     # tag 17 does not fit an old-format header
